@@ -61,6 +61,9 @@ type c01Case struct {
 	Frag         s3x.Frag      `json:"frag,omitempty"`
 }
 
+// c01N counts the checks (every third one also issues a refused bucket delete before reading back)
+var c01N int
+
 var (
 	c01Mu     sync.Mutex
 	c01Stacks = map[string]*backends.Stack{}
@@ -310,6 +313,14 @@ func c01Check(cs c01Case) (ds []disc) {
 
 	if cs.Path == "copy" {
 		metaSent = cs.Meta
+	}
+	// a request to delete the bucket is refused while it holds the object (or is not supported at all);
+	// a refused request changes nothing about what was acknowledged
+	if c01N++; c01N%3 == 0 {
+		if r := s3x.Do(st.Handler, &s3x.Req{Method: "DELETE", Path: "/bk0"}); r.Status/100 == 2 {
+			fail("bucket-deleted", "DELETE of the bucket that holds the object just stored answered %s", r)
+			return
+		}
 	}
 	// --- read back through HTTP
 	seenHdr := map[string]http.Header{}
